@@ -27,19 +27,19 @@ PENDING = {
 }
 CHECKS = {
  "C16": dict(level="fault_enumeration", ref="DESIGN.md §3.3",
-   text="For each seeded case (policy recipe, input, chunk schedule) every destination write index x 5 fault kinds x 2 writer kinds, every source offset x {error alone, error with data} x both streaming entry points, and sampled combined faults are executed against the real library; oracles: non-nil error, zero write calls after the failed one, accepted bytes are a prefix of the fault-free output, empty buffer from SanitizeReader. Exhaustive over fault positions within a case, sampled over cases.",
+   text="For each seeded case (policy recipe, input, chunk schedule) every destination write index x 5 fault kinds x destination kinds (WriteString-capable, Write-only, and flushable variants) with varied error values (sentinel, io.EOF, io.ErrShortWrite, EAGAIN, deadline ...), every source offset x {error alone, error with data} x 6 error kinds (incl. an error wrapping io.EOF) x both streaming entry points, and sampled combined faults are executed against the real library; oracles: non-nil error, zero write calls after the failed one, accepted bytes are a prefix of the fault-free output, empty buffer from SanitizeReader. Exhaustive over fault positions within a case, sampled over cases. Found and led to the repair of a genuine defect (unchecked comment write, /repo 5b7d9ba).",
    note="Trusted: the simulated reader/writer produce only contract-legal behaviour; fault-free reference comes from the same build; cases are sampled, a clean batch is evidence not proof.",
    tech="deterministic simulation: seeded fault enumeration over simulated io.Reader/io.Writer, plan minimisation, fresh-process replay"),
  "C15": dict(level="exploration", ref="DESIGN.md §3.2",
-   text="Seeded cases (policy recipe, input) are pushed through all four entry points under many chunk schedules of a simulated source (1 byte, fixed, random with empty reads, data+EOF, scratch-space scribbling, every two-chunk split position when len<=256 - that sub-space is exhaustive), four destination kinds, early EOF at sampled offsets, blank inputs, a canary for the caller's []byte incl. spare capacity, and both CLI binaries rebuilt from the tree and fed over a pipe in scheduled chunks; oracle: byte equality with Sanitize on the same build, and with an independent transcription of the documented CLI policies.",
+   text="Seeded cases (policy recipe, input) are pushed through all four entry points under many chunk schedules of a simulated source (1 byte, fixed, random with empty reads, an empty read before every chunk, data+EOF, scratch-space scribbling, every two-chunk split position when len<=256 - that sub-space is exhaustive), four destination kinds, early EOF at sampled offsets, blank inputs, a canary behind the caller's []byte, a retention check (results re-read after later unrelated calls), giant single tokens up to 1.1 MB, and both CLI binaries rebuilt from the tree and fed over a pipe in scheduled chunks (up to 200 KB of stdin); oracle: byte equality with Sanitize on the same build, and with an independent transcription of the documented CLI policies.",
    note="Trusted: Sanitize on the same tree as the reference for non-blank inputs; cli_policies.go transcription; sampled over cases.",
    tech="deterministic simulation: seeded chunk/EOF schedules over simulated io.Reader/io.Writer and CLI stdin, differential oracle, plan minimisation"),
  "C13": dict(level="exploration", ref="DESIGN.md §3.1",
-   text="2-6 caller tasks share one finished policy; a seeded baton scheduler serialises them at every Read, Write, user callback and map-iteration point (map order itself is a simulator decision via the instrumented scratch copy). The baton uses raw syscalls that the Go race runtime cannot see, so ThreadSanitizer reports any conflicting access between two calls on a fully deterministic, replayable execution; every operation's result is compared with the same operation run alone on a fresh policy under canonical map order, and the shared policy's later behaviour with a fresh policy's.",
-   note="Trusted: Go race runtime; instrumentation of range-over-map headers; raw syscalls stay un-instrumented (canary checked on every run). sync.Pool edges inside regexp can mask a pair in one execution. Sampled schedules, not exhaustive.",
+   text="2-6 caller tasks share one finished policy; a seeded baton scheduler (uniform with stickiness, or PCT) serialises them at every Read, Write, user callback, map-iteration point and - through instrumentation of the scratch copy - every sync/atomic use inside the library (never inside a lock-holding region); map order itself is a simulator decision, also during construction. The baton uses raw syscalls that the Go race runtime cannot see, so ThreadSanitizer reports any conflicting access between two calls on a serialised, replayable execution; every operation's result is compared with the same operation run alone on a fresh policy under canonical map order, returned values are re-read after all calls finished, the shared policy's later behaviour is compared with a fresh policy's, and sampled plans are re-executed alone in a pristine process (results must not depend on earlier calls anywhere in the process).",
+   note="Trusted: Go race runtime; instrumentation of range-over-map headers and sync calls; raw syscalls stay un-instrumented (canary checked in every process). sync.Pool edges inside regexp can mask a conflicting pair in one execution (measured, DESIGN 10.2), so a data-race class gets a few fresh-process attempts of the identical schedule. Sampled schedules, not exhaustive.",
    tech="deterministic simulation: seeded baton scheduler over real goroutines + race runtime as exact per-execution oracle, controlled map order, differential reference"),
  "C17": dict(level="exploration", ref="DESIGN.md §3.4",
-   text="Histories of builder steps over 1-3 policy instances (chains split into separately scheduled steps) are interleaved, permuted within commutation classes, case-mutated and toggle-reduced by a seeded scheduler; each resulting policy is compared behaviourally (Sanitize on probe inputs derived from the rule set) with the same rule set built alone in canonical order from lower-case names, and instances are re-fingerprinted after other instances and shipped constructors are extended.",
+   text="Histories of builder steps over 1-3 policy instances (chains split into separately scheduled steps, builders reused for a second scope call, rule piles, same-slot collisions, toggled switches) are interleaved (optionally with Sanitize calls between steps), permuted within commutation classes, case-mutated and reduced by a small executable model of the switch-like options; each resulting policy is compared behaviourally (Sanitize on ~550 probe inputs derived from the rule set) with the same rule set built alone in canonical order from lower-case names; instances are re-fingerprinted after other instances and fresh shipped policies are extended, and sampled plans are re-executed alone in a pristine process.",
    note="Trusted: the small switch model (write sets from doc comments); behavioural probes only see differences the probe inputs exercise.",
    tech="deterministic simulation: seeded interleaving/permutation of builder-call histories, refinement against canonical build"),
 }
